@@ -201,7 +201,7 @@ func (o *c14) Step(r *StepRec) []Violation {
 			o.hit("unparsed_pricing")
 			continue
 		}
-		min := o.w.cfg.MinDepositFor(rp.Base)
+		min := o.w.cfg.MinDepositFor(o.w.cfg.InBase(rp))
 		d := stakeOf(b.Deposit)
 		if d >= min {
 			delete(o.inherited, bk)
@@ -231,7 +231,7 @@ func (o *c14) Step(r *StepRec) []Violation {
 	switch a.Kind {
 	case KBind:
 		if rp, err := ParseRefPricing(a.Pricing); err == nil && a.Deposit != nil && !existed {
-			near(*a.Deposit, rp.Base)
+			near(*a.Deposit, o.w.cfg.InBase(rp))
 		}
 	case KUpdateBind:
 		if existed && a.Pricing != "" {
@@ -243,7 +243,7 @@ func (o *c14) Step(r *StepRec) []Violation {
 					if a.Deposit != nil {
 						add = *a.Deposit
 					}
-					if stakeOf(pb.Deposit)+add < o.w.cfg.MinDepositFor(np.Base) {
+					if stakeOf(pb.Deposit)+add < o.w.cfg.MinDepositFor(o.w.cfg.InBase(np)) {
 						o.hit("price_raise_would_underfund")
 					}
 				}
@@ -262,7 +262,7 @@ func (o *c14) Step(r *StepRec) []Violation {
 				add = *a.Deposit
 			}
 			if rp, err := ParseRefPricing(pb.Pricing); err == nil {
-				near(stakeOf(pb.Deposit)+add, rp.Base)
+				near(stakeOf(pb.Deposit)+add, o.w.cfg.InBase(rp))
 			}
 		}
 	}
@@ -299,9 +299,12 @@ func ratOfDec(d sdk.Dec) *big.Rat {
 func pricingMatches(p types.Pricing, rp RefPricing) string {
 	amt := int64(0)
 	for _, c := range p.Price {
-		if c.Denom == "stake" {
+		if c.Denom == rp.Denom {
 			amt = mustI64(c.Amount)
 		}
+	}
+	if len(p.Price) != 1 || p.Price[0].Denom != rp.Denom {
+		return fmt.Sprintf("price %s vs published %d%s", p.Price, rp.Base, rp.Denom)
 	}
 	if amt != rp.Base {
 		return fmt.Sprintf("price %d vs published %d", amt, rp.Base)
